@@ -6,8 +6,9 @@ CONSTANTS
   CompNames <- Comps1
   MaxDepth = 2
   MaxItems = 3
-  MaxSteps = 5
-  FullSetup = TRUE
+  MaxSteps = 4
+  MinSteps = 0
+  Pick <- PickAll
   Variants = {}
   Dev = {}
   FieldOptions <- SmallOptions
